@@ -492,16 +492,16 @@ impl MessageEncoder {
 #[verifier::rlimit(60)]
 //@before "check_buffer_boundaries(buffer,"
     proof { lemma_img_ge20(*msg, msg.attributes@.len() as int); }
-//@before "let mut length: usize = 0;"
+//@before "let mut length"
     proof { lemma_img0(*msg); }
-//@before "let vx_s0 = msg.attributes();"
+//@before "let vx_s0 ="
     proof {
         if msg.method.0 <= 0x0FFF {
             assert(buffer@.subrange(0, 20) =~= hdr_img(*msg));
         }
         assert(buffer@.subrange(2, 4) =~= seq![0u8, 0u8]);
     }
-//@before "let coded_index = length + MESSAGE_HEADER_SIZE;"
+//@before "let coded_index ="
     proof {
         lemma_fail_prefix(*msg, position as int + 1, msg.attributes@.len() as int, buffer@.len() as int);
         lemma_img_grows(*msg, position as int + 1);
